@@ -2,7 +2,81 @@
 
 package dpos
 
-import "github.com/aergoio/aergo/v2/chain"
+import (
+	"github.com/aergoio/aergo/v2/chain"
+	"github.com/aergoio/aergo/v2/consensus/impl/dpos/bp"
+	"github.com/aergoio/aergo/v2/types"
+)
 
 // VerifEnableVotingReward installs the DPoS voting-reward decorator exactly as dpos.New does.
 func VerifEnableVotingReward() { chain.DecorateBlockRewardFn(sendVotingReward) }
+
+// VerifNew builds the real DPoS consensus object for a chain service the way dpos.New does,
+// minus the block factory (blocks are produced by the harness) and the voting reward.
+func VerifNew(cs *chain.ChainService) (*DPoS, error) {
+	cdb, sdb := cs.CDB(), cs.SDB()
+	bpc, err := bp.NewCluster(cdb)
+	if err != nil {
+		return nil, err
+	}
+	Init(bpc.Size())
+	return &DPoS{Status: NewStatus(bpc, cdb, sdb, 0), ChainDB: cdb, bpc: bpc}, nil
+}
+
+// The boot loader is a package global that belongs to the most recently created Status; several
+// simulated nodes in one process must put their own loader back before they are driven.
+func VerifLoader() interface{}     { return bsLoader }
+func VerifSetLoader(l interface{}) { bsLoader = l.(*bootLoader) }
+
+// VerifLIB returns the last irreversible block the status reports.
+func (d *DPoS) VerifLIB() (types.BlockNo, string) {
+	d.Status.RLock()
+	defer d.Status.RUnlock()
+	if d.Status.libState == nil || d.Status.libState.Lib == nil {
+		return 0, ""
+	}
+	return d.Status.libState.Lib.BlockNo, d.Status.libState.Lib.BlockHash
+}
+
+// VerifBpIndex returns the producer index of id in the current producer set (-1: not a member).
+func (d *DPoS) VerifBpIndex(id types.PeerID) int {
+	i := d.bpc.BpID2Index(id)
+	if !d.bpc.Has(id) {
+		return -1
+	}
+	return int(i)
+}
+
+func (d *DPoS) VerifBpCount() int { return int(d.bpc.Size()) }
+
+// VerifForceLoad makes the status load what the boot loader restored from the chain DB (the
+// real code does this lazily inside the first Update).
+func (d *DPoS) VerifForceLoad() {
+	d.Status.Lock()
+	defer d.Status.Unlock()
+	d.Status.load()
+}
+
+// VerifRecomputeLIB replays the stored main-chain blocks 1..best through Status.Update on a
+// fresh status object and returns the LIB it arrives at (the reference for "the status restored
+// after a restart equals the one recomputed from the stored blocks").
+func (d *DPoS) VerifRecomputeLIB() (types.BlockNo, string, error) {
+	best, err := d.ChainDB.GetBestBlock()
+	if err != nil {
+		return 0, "", err
+	}
+	gen, err := d.ChainDB.GetBlockByNo(0)
+	if err != nil {
+		return 0, "", err
+	}
+	fresh := &Status{libState: newLibStatus(d.bpc.Size()), bps: d.Status.bps, sdb: d.Status.sdb, done: true, bestBlock: gen}
+	fresh.libState.genesisInfo = newBlockInfo(gen)
+	for i := types.BlockNo(1); i <= best.BlockNo(); i++ {
+		b, err := d.ChainDB.GetBlockByNo(i)
+		if err != nil {
+			return 0, "", err
+		}
+		fresh.Update(b)
+	}
+	return fresh.libState.Lib.BlockNo, fresh.libState.Lib.BlockHash, nil
+}
